@@ -599,7 +599,31 @@ def _unstrip(v):
     return v
 
 
-RULES = [("C14.R1", r1_codec), ("C14.R2", r2_bound), ("C14.R3", r3_failures), ("C14.R4", r4_token_wins), ("C14.R5", r5_limit)]
+_INT_BITS = {"u8": 8, "i8": 8, "u16": 16, "i16": 16, "u32": 32, "i32": 32, "u64": 64, "i64": 64, "u128": 128, "i128": 128, "usize": 64, "isize": 64, "bool": 1, "char": 32}
+
+
+def r6_no_lossy_cast(ctx, rid="C14.R6"):
+    """Added after adversary change C14-F: `limit` was parsed as u64 "to clamp instead of refusing" and narrowed with `as u32`, so
+    limit=4294967297 produced pages of one item."""
+    R = ctx.rule(rid, "no numeric value of the pagination path (limit, token length, version) is narrowed or re-signed by an `as` cast: every integer cast in pagination.rs, its "
+                 "serde helpers and RequestContext::page_limit is value-preserving (to a type at least as wide with the same signedness, or from bool/unsigned into a wider type)", floor=1)
+    fns = [f for f in ctx.ds.F.values() if re.search(r"^<*pagination::|^handler::RequestContext::<Context>::page_limit", f.id)]
+    ctx.check(R, "pagination-functions", len(fns) >= 20, "functions examined: %d" % len(fns), None, nontrivial=False)
+    for f in fns:
+        for bb, i, st in f.stmts():
+            rv = st["rv"]
+            if rv["rv"] != "cast" or "IntToInt" not in rv.get("kind", "") or bb not in f.reachable(0):
+                continue
+            op = rv["op"]
+            src = (f.local_ty(op["pl"]["l"]) if op.get("pl") and not op["pl"]["p"] else op.get("ty")) or "?"
+            dst = rv.get("ty") or "?"
+            sb, db = _INT_BITS.get(src), _INT_BITS.get(dst)
+            signed = lambda t: t.startswith("i")
+            ok = sb is not None and db is not None and ((signed(src) == signed(dst) and db >= sb) or (not signed(src) and db > sb))
+            ctx.check(R, "cast:%s:%s->%s" % (f.id, src, dst), ok, "`as` cast from %s to %s %s" % (src, dst, "preserves the value" if ok else "can change the value (truncation / sign change)"), (f, bb))
+
+
+RULES = [("C14.R1", r1_codec), ("C14.R2", r2_bound), ("C14.R3", r3_failures), ("C14.R4", r4_token_wins), ("C14.R5", r5_limit), ("C14.R6", r6_no_lossy_cast)]
 
 PG = "dropshot/src/pagination.rs"
 HD = "dropshot/src/handler.rs"
@@ -848,3 +872,4 @@ fn check_generated_token_length(token: String) -> Result<String, HttpError> {
 """)],
      "expect": ["C14.R3", "C14.R4"], "why": "twin of whichpage-guard-clause-const-key: a malformed token falls through to the first-page path instead of being refused"},
 ]
+LEVEL_TEXT += " Also (R6): no integer of the pagination path is narrowed or re-signed by an `as` cast."
